@@ -166,11 +166,11 @@ ENTRY = ['add_datum', 'add_datum_allow_uninit', 'add_datum_override', 'add_dynam
 
 
 def resolver_tasks(strategies):
+    """Every entry point under every strategy, followed by a second datum through the plain entry."""
     tasks = []
     for e1 in ENTRY:
-        for e2 in ENTRY:
-            for st in strategies:
-                tasks.append(dict(kind='resolver', entries=[e1, e2], strategy=st))
+        for st in strategies:
+            tasks.append(dict(kind='resolver', entries=[e1, 'add_datum'], strategy=st, second_fixed=True))
     return tasks
 
 
@@ -179,11 +179,15 @@ def run_resolver(e, t, opts):
     symbolic; the stored type information must be the resolver's answer (or the override) and nothing
     may depend on the host (host reads are symbols of their own)."""
     aligns = opts.get('aligns', ALIGNS)
+    e.host_read_is_violation = True
     nat = Native(e)
     expected = []
     for i, ent in enumerate(t['entries']):
-        ra = e.choose(e.fresh_int('ra%d' % i, 1, max(aligns)), aligns)
-        rs = e.fresh_int('rs%d' % i, 0, opts.get('smax', SMAX))
+        if i > 0 and t.get('second_fixed'):
+            ra, rs = 4, 6
+        else:
+            ra = e.choose(e.fresh_int('ra%d' % i, 1, max(aligns)), aligns)
+            rs = e.fresh_int('rs%d' % i, 0, opts.get('smax', SMAX))
         e.resolver_next = ('R%d' % i, rs, ra)
         name = 'f%d' % i
         if ent == 'add_datum':
@@ -225,6 +229,7 @@ def run_resolver(e, t, opts):
         e.verify(ti.fields[1] == exp[1], 'C18: stored size of datum %d (%s) is not the resolver\'s answer / the override' % (i, t['entries'][i]))
         e.verify(ti.fields[2] == exp[2], 'C18: stored alignment of datum %d (%s) is not the resolver\'s answer / the override' % (i, t['entries'][i]))
         e.verify(det.fields[2] == exp[3], 'C18: stored may-be-uninitialised flag of datum %d (%s) is wrong' % (i, t['entries'][i]))
+    layout.check_env(e)
     e.verify(e.host_reads == 0, 'C18: the builder or a strategy read the host\'s own size/alignment of a type (%d reads)' % e.host_reads)
     # offsets: a function of the stored (= resolver) information — re-derived by the layout checks
     variants = Layout.variants_of(nat.inner)
@@ -248,7 +253,7 @@ def resolver_scenario(t, model):
     g = lambda k, d=0: model.get(k, d)
     items = []
     for i, ent in enumerate(t['entries']):
-        items.append(dict(entry=ent, rs=int(g('rs%d' % i)), ra=int(g('ra%d' % i, 1)),
+        items.append(dict(entry=ent, rs=int(g('rs%d' % i, 6)), ra=int(g('ra%d' % i, 4)),
                           ov_name=str(g('ov_name%d' % i, 'False')) == 'True', ov_size=str(g('ov_size%d' % i, 'False')) == 'True',
                           ov_align=str(g('ov_align%d' % i, 'False')) == 'True', ov_uninit=int(g('ov_uninit%d' % i, 0)),
                           os=int(g('os%d' % i)), oa=int(g('oa%d' % i, 1)),
